@@ -295,6 +295,46 @@ def h_recip(general):
     return fn
 
 
+def h_recip_left():
+    """LEFT-handed cell (negative triple product: swapped / mirrored vectors): duality and the coordinate maps do not depend on handedness"""
+    def fn():
+        from atomman import Box
+        V = [[var(f'v{i}{j}', -100, 100, deadzone=0.001) for j in range(3)] for i in range(3)]
+        assume(sx.det3(V) <= -1)
+        O = origin()
+        b = Box(vects=V, origin=O)
+        R = b.reciprocal_vects
+        ob = []
+        for i in range(3):
+            for j in range(3):
+                ob.append((f'left-handed cell: v{i}.r{j} == delta', eq(sum(V[i][k] * R[j][k] for k in range(3)), 1 if i == j else 0)))
+        ob.append(('left-handed cell: volume == |a.(b x c)| > 0', band(eq(b.volume, -sx.det3(V)), b.volume > 0)))
+        P = [var(f'p{k}', -1000, 1000) for k in range(3)]
+        rel = b.position_cartesian_to_relative(P)
+        back = b.position_relative_to_cartesian(rel)
+        ob.append(('left-handed cell: relative -> Cartesian undoes Cartesian -> relative', band(*[eq(back[k], P[k]) for k in range(3)])))
+        ob.append(('left-handed cell: Cartesian position == origin + sum rel_k v_k', band(*[eq(O[k] + sum(rel[i] * V[i][k] for i in range(3)), P[k]) for k in range(3)])))
+        return ob
+    return fn
+
+
+def h_norm_scale(which):
+    """a concrete cell that is NOT in LAMMPS orientation, scaled by a symbolic factor s in [1e-12, 1e3] (cells expressed in metres have
+    components of 1e-10): is_lammps_norm() is False at every scale, and the LAMMPS parameters refuse to be read; an upper-triangle
+    component that is exactly zero stays LAMMPS-compatible at every scale"""
+    def fn():
+        from atomman import Box
+        s = var('s', 1e-12, 1000.0)
+        V0 = {'rotated': [[3.0, 0.5, 0.0], [-0.4, 2.5, 0.3], [0.2, 0.1, 4.0]], 'swapped': [[0.0, 2.0, 0.0], [3.0, 0.0, 0.0], [0.0, 0.0, -4.0]], 'lammps': [[3.0, 0.0, 0.0], [0.7, 2.5, 0.0], [-0.2, 0.4, 4.0]]}[which]
+        b = Box(vects=[[s * x for x in row] for row in V0])
+        n = b.is_lammps_norm()
+        ob = [(f'{which} cell scaled by any s in [1e-12,1e3]: is_lammps_norm() == {which == "lammps"}', n if which == 'lammps' else (not n))]
+        bv = b.vects
+        ob.append((f'{which} cell scaled: the stored vectors are the scaled vectors', band(*[eq(bv[i, j], s * V0[i][j]) for i in range(3) for j in range(3)])))
+        return ob
+    return fn
+
+
 def h_inside(general, inclusive, n, lead=None):
     def fn():
         from atomman import Box
@@ -438,6 +478,9 @@ def cases(tier, seed=0):
                        descr='reported lengths, angles and volume are those of the vectors'))
         cs.append(Case(f'recip_{"general" if g else "lammps"}', h_recip(g), bind=BIND, budget_s=170, timeout_ms=20000, weight=5,
                        descr='reciprocal vectors dual to the cell vectors, also after the cell is set again (cache invalidation)'))
+    cs.append(Case('recip_lefthanded', h_recip_left(), bind=BIND, budget_s=170, timeout_ms=20000, weight=3, descr='left-handed general cell: duality, volume, coordinate maps'))
+    for which in ('rotated', 'swapped', 'lammps'):
+        cs.append(Case(f'norm_scale_{which}', h_norm_scale(which), bind=BIND, budget_s=120, timeout_ms=20000, max_paths=20, descr=f'is_lammps_norm at every length scale ({which} concrete cell x symbolic scale factor)'))
         shapes = [((3,), False), ((3,), True), ((2, 3), False), ((2, 3), True), ((2, 2, 3), False)]
         if tier == 'thorough': shapes += [((2, 2, 3), True), ((1, 3), True), ((3, 1, 3), False)]
         for shp, aslist in shapes:
